@@ -107,7 +107,7 @@ Section Machine.
         end
     | _parse_request_reply =>
         let d := buf s in
-        if nlen d <? 8 then ret s else
+        if nlen d <? c_MIN_REPLY then ret s else
         match d with
         | v :: rep :: _ :: typ :: _ =>
             if negb (code v =? 5) then rec s reply_error (AErr generic)
